@@ -292,6 +292,31 @@ func runFaults(c *Check, seed uint64, i int, tier string, st *core.Stats) {
 			execE(c.ID, sc, i, st)
 		}
 	}
+	// an action fails while the context has already ended (cancelled at or before the failing event of the
+	// same firing): the failure must still be reported and name the rule
+	var acts []esim.EvInfo
+	for _, e := range clean.Eligible {
+		if e.Phase == "action" {
+			acts = append(acts, e)
+		}
+	}
+	for s := 0; s < 6 && len(acts) > 0; s++ {
+		e := acts[r.Intn(len(acts))]
+		sc := base.Clone()
+		sc.Faults = []core.Fault{{At: e.Seq, Kind: r.PickStr("err", "panic")}}
+		sc.CancelAt = e.Seq
+		if r.Chance(1, 2) {
+			// cancel a little earlier, but inside the same firing when possible
+			for _, a := range acts {
+				if a.Seq < e.Seq && e.Seq-a.Seq <= 4 {
+					sc.CancelAt = a.Seq
+					break
+				}
+			}
+		}
+		execE(c.ID, sc, i, st)
+		st.Probes["fault-with-cancellation"]++
+	}
 	// sampled multi-fault sequences
 	if len(clean.Eligible) >= 2 {
 		for s := 0; s < 3; s++ {
